@@ -86,6 +86,9 @@ type SimDisk struct {
 	Log    *core.Log
 	Yield  func(what string)
 	Calls  int
+	// KeepOffered: keep a copy of every buffer handed to Write, accepted or not
+	KeepOffered bool
+	Offered     [][]byte
 }
 
 func NewDisk(f *DiskFault, log *core.Log) *SimDisk { return &SimDisk{Fault: f, Log: log} }
@@ -96,6 +99,9 @@ func (d *SimDisk) Write(p []byte) (int, error) {
 	}
 	idx := d.Calls
 	d.Calls++
+	if d.KeepOffered {
+		d.Offered = append(d.Offered, append([]byte(nil), p...))
+	}
 	accept := len(p)
 	fail := false
 	if f := d.Fault; f != nil {
